@@ -96,6 +96,11 @@ CHECKS = {
             "1..3 reader threads execute the real SharedDictDataset.__getitem__ / dispose; the Manager dict is replaced by an in-process SchedDict that pickles on store, unpickles on load and yields to the scheduler before every operation (the atomicity a Manager proxy gives separate processes; bound to the real Manager dict by replaying all 399 operation sequences of depth <=3 against both). Every program tuple (<=2 accesses per reader over two colliding indices, one clear at any position), 5 payload types, 3 post-cache transforms, every schedule with preemption bound 0,1,2 and unbounded (R<=2) is executed; values must equal transform(base[i]), no exception, transform once per access. All single-reader operation sequences of length <=4: at most one load per sample between clears, reload after a clear.",
             "Trusted: the atomicity model and SchedDict conformance; quick tier rotates payload x transform pairs for R>=2 with VERIF_SEED; real processes are not the deciding step.",
             "DESIGN.md section 5 C19"),
+    "C20": ("E5-crash", "fault_enumeration",
+            "exhaustive crash-point enumeration on the real code over a real directory tree: every file-system mutation point of every attempt, crash histories to depth D, explicit-state dedup on tree digests",
+            "For plain-folder / single-zip / folder-of-zips sources, with and without relative_path, initial local state absent / parent exists / user-provided folder / completed copy, num_workers 0/1, both listing orders and both copy functions: each attempt runs in a forked child that dies with os._exit immediately before file-system mutation number k (audit hook: writing open, mkdir, unlink, rmdir, rename; wrappers: every sendfile/copy chunk, every zip extraction chunk, marker file created-but-unflushed); from every distinct crash tree the next attempt's crash points are enumerated again (depth 2 quick / 3 thorough), then an uninterrupted call and a second one: local tree byte-identical to the source + both markers (or untouched user folder), no incomplete copy reported usable, truthful result, completed copy never touched, second call performs zero mutations.",
+            "Trusted: the interposer's completeness (mutation kinds listed in kdverif/core/crashfs.py); process death only (no power-loss / fsync reasoning); joblib workers (num_workers>=2) are not explored. Four known findings (two protocol windows x two functions) are listed in known_findings.json.",
+            "DESIGN.md section 5 C20"),
 }
 
 NOT_APPLICABLE = {
